@@ -14,6 +14,12 @@
 //   callback (an observing callback that reads the whole solution and the HPWL), forced-xy / forced-yx / forced-alternating
 //   (solve hook: the y (x) solve of every lower-bound step is held until the x (y) solve of that step has returned),
 //   delays (random sleeps in the hook at the start and end of each solve, no synchronisation), delays+callback.
+//   callback-overwrites-its-parameters (the observing callback, after reading, overwrites EVERY field of the ColoquinteParameters
+//   object that was passed to the running call -- patterns: all minimal, another accepted set, extremes of the types; the object
+//   is restored before the next stage), callback-overwrites-parameters+setter-arguments+copy-source (in addition the vectors that
+//   were handed to the setters / addNet / setNetWeights / setSolution when the circuit was built are overwritten and freed, and
+//   the circuit the placed one was copied from is overwritten with another circuit, then destroyed); scrib=<callbacks that overwrote>.
+//   The callbacks never touch the circuit being placed: results must be bitwise those of the run without callback.
 // The solve hook is `coloquinte_verif_solve_hook(model, phase)` (commit "verif hook: ..." in /repo, guarded by COLOQUINTE_VERIF);
 // without it hook=0 is printed and nothing is forced.
 #include <atomic>
